@@ -225,3 +225,43 @@ def default_is_used(ctx, fn: FunctionInfo, pname: str) -> bool:
                 if not exact or pname not in b:
                     return True
     return False
+
+
+_MEMO = ("lru_cache", "functools.lru_cache", "cache", "functools.cache")
+
+
+def memoised_with_incomplete_key(p, fn: FunctionInfo):
+    """`fn` is memoised (functools.lru_cache / cache) as a method, and its body reads an attribute of `self` that does not take part
+    in the equality / hash of its class - so two objects that differ only in that attribute are one cache key and the second is
+    answered with the first one's result. Returns (decorator text, sorted attribute names, reason) or None.
+    Decided from the class alone: a dataclass compares its fields except those declared field(compare=False); a class with its own
+    __eq__ compares what that method mentions; a class with neither compares by identity (no collision)."""
+    deco = next((d for d in fn.decorators if d.split("(")[0] in _MEMO), None)
+    if deco is None or not fn.binds_self or fn.is_classmethod:
+        return None
+    cls = fn.cls
+    if cls is None or not fn.self_name:
+        return None
+    reads = {n.attr for n in ast.walk(fn.node) if isinstance(n, ast.Attribute) and isinstance(n.ctx, ast.Load)
+             and isinstance(n.value, ast.Name) and n.value.id == fn.self_name}
+    reads = {mangle(a, cls.name) for a in reads}
+    field_names = {f.name for k in p.mro(cls) for f in k.fields}
+    eq = next((k.methods["__eq__"] for k in p.mro(cls) if "__eq__" in k.methods), None)
+    if eq is not None:
+        compared = {n.attr for n in ast.walk(eq.node) if isinstance(n, ast.Attribute)}
+        missing = sorted(a for a in reads & field_names if a not in compared) if field_names else \
+            sorted(a for a in reads if a not in compared and a not in {m for k in p.mro(cls) for m in k.methods})
+        return (deco, missing, "not compared by the class's __eq__") if missing else None
+    if cls.is_dataclass:
+        if any("eq=False" in d.replace(" ", "") for d in cls.decorators):
+            return None                      # identity
+        excluded = set()
+        for k in p.mro(cls):
+            for f in k.fields:
+                d = f.default
+                if isinstance(d, ast.Call) and ast.unparse(d.func).split(".")[-1] == "field" and any(
+                        kw.arg == "compare" and isinstance(kw.value, ast.Constant) and kw.value.value is False for kw in d.keywords):
+                    excluded.add(f.name)
+        missing = sorted(reads & excluded)
+        return (deco, missing, "declared field(compare=False): left out of the generated __eq__ and __hash__") if missing else None
+    return None
